@@ -18,14 +18,26 @@ def c18bank (l : Line) : P String := do
   | .err _ => pure "err"
   | .panic => pure "panic"
 
+/-- the pair `ccel.ReplayAndExtract` returns for the bank of the quote, as the harness observed it by calling it directly -/
+def replayRet (s : String) : P (Outcome (GoRet Unit)) :=
+  if s == "ok" then pure (.ok ⟨some (), none⟩)
+  else if s == "err" then pure (.ok ⟨none, some "replay"⟩)
+  else if s == "state+err" then pure (.ok ⟨some (), some "extract"⟩)
+  else if s == "nil" then pure (.ok ⟨none, none⟩)
+  else if s == "panic" then pure .panic
+  else .error s!"bad replay outcome {s}"
+
 /-- `C18.parse v=<gate> val=<gate> rp=<replay outcome for the bank of the quote> q=…` -/
 def c18parse (l : Line) : P String := do
   let q ← parseQuote l
   let v ← gate (← l.str "v")
   let va ← gate (← l.str "val")
-  let rp ← gate (← l.str "rp")
+  let rp ← replayRet (← l.str "rp")
   match parseCcel v va q (fun _ => rp) with
-  | .ok _ => pure "state"
+  | .ok ⟨some _, none⟩ => pure "state"
+  | .ok ⟨some _, some _⟩ => pure "state+err"
+  | .ok ⟨none, some _⟩ => pure "err"
+  | .ok ⟨none, none⟩ => pure "nil"
   | .err _ => pure "err"
   | .panic => pure "panic"
 
